@@ -76,6 +76,9 @@ class Sym:
             elif norm(s) in self.len1:
                 unit = 1
             if unit is not None:
+                nonneg = (isinstance(k, ast.Constant) and isinstance(k.value, int) and k.value >= 0) or (isinstance(k, ast.Call) and call_name(k) in ("len", "cell_len")) or (isinstance(k, ast.Call) and call_name(k) == "max" and any(isinstance(a_, ast.Constant) and a_.value == 0 for a_ in k.args))
+                if not nonneg:
+                    self.side.append(f"{norm(k)} >= 0 (for `{norm(e)}`: a negative repeat count gives the empty string, not a string of negative length)|NONNEG|{norm(k)}")
                 return _scale(self.int_of(k, nid, depth), unit)
             return {f"len({norm(e)})": 1}
         if isinstance(e, ast.Attribute) and e.attr == "plain":
@@ -318,10 +321,15 @@ def r5_1(ctx):
                         raise AnalysisError(f"{f.fq}: cannot pair `{short(st)}` with the update of {obj}._length that accounts for it")
                     l = same[0]
                     handled_ls.add(id(l[3]))
+                    side_now = list(sym.side)
                     lv = sym.int_of(l[2], nid_of(l[3]))
                     ok = lin_eq(_canon(lv), _canon(el))
                     ctx.check(ok, f.fq, f"{short(st)} ; {short(l[3])}", where, f"{obj}: appended fragment and length increment are the same quantity ({show(el)})",
                               f"{obj}._text gains a fragment of length `{show(el)}` but _length grows by `{show(lv)}`: the length is taken from a different value than the text that is stored (e.g. measured before control codes are stripped)")
+                    if ok:
+                        und = [c for c in side_now if c.split("|")[1] == "NONNEG" and not _discharged(f, g, st, c)]
+                        if und:
+                            ctx.violation(f.fq, f"{short(st)} ; {short(l[3])}", where, f"{obj}._text gains `{norm(expr)}` and _length grows by `{show(lv)}`; the two agree only when {'; '.join(c.split('|')[0] for c in und)} - not guaranteed here (public argument, no dominating sign test): a negative count appends nothing but shrinks the length, len(text) != len(text.plain)")
             for l in ols:
                 if id(l[3]) in handled_ls:
                     continue
@@ -436,6 +444,21 @@ def _discharged(f, g, st, cond: str) -> bool:
     try:
         _msg, base, k = cond.split("|")
     except ValueError:
+        return False
+    if base == "NONNEG":
+        from ..astutil import inline as _inl0, single_defs as _sdf0
+        from ..yieldpaths import canon_test as _ct0
+        sd0 = _sdf0(f.node)
+        kk = k.replace(" ", "")
+        yes = {f"{kk}>0", f"{kk}>=0", f"{kk}>=1", f"0<{kk}", f"0<={kk}", f"1<={kk}"}
+        no = {f"{kk}<=0", f"{kk}<0", f"{kk}<1", f"0>={kk}", f"0>{kk}"}
+        for nid in g.nodes_of(st):
+            for t0, v0 in g.branch_facts(nid):
+                for cand in (t0, _inl0(t0, sd0)):
+                    for atom, v in _ct0(cand, v0):
+                        a = atom.replace(" ", "")
+                        if (v is True and a in yes) or (v is False and a in no):
+                            return True
         return False
     try:
         kval = int(k)
